@@ -777,6 +777,7 @@ class PDFDocument:
         self._cached_objs: Dict[int, Tuple[object, int]] = {}
         self._parsed_objs: Dict[int, Tuple[List[object], int]] = {}
         self._objstms_in_progress: Set[int] = set()
+        self._objs_being_parsed: Set[int] = set()
         self._parser = parser
         self._parser.set_document(self)
         self.is_printable = self.is_modifiable = self.is_extractable = True
@@ -942,7 +943,16 @@ class PDFDocument:
                         finally:
                             self._objstms_in_progress.discard(strmid)
                     else:
-                        obj = self._getobj_parse(index, objid)
+                        # Parsing an object never needs that same object (a
+                        # stream whose /Length refers to the stream itself
+                        # would be parsed again and again).
+                        if objid in self._objs_being_parsed:
+                            raise PDFObjectNotFound(objid)
+                        self._objs_being_parsed.add(objid)
+                        try:
+                            obj = self._getobj_parse(index, objid)
+                        finally:
+                            self._objs_being_parsed.discard(objid)
                         if self.decipher and objid != self._encrypt_objid:
                             obj = decipher_all(self.decipher, objid, genno, obj)
 
